@@ -210,7 +210,8 @@ class Ctx:
         fam['dfs'] = {'preemption_bound': bound, 'schedules': total, 'waves': waves, 'bound_explored_completely': complete}
         return total, complete
 
-    def violation(self, prop, clause, idx, sc, r, family, driver, known_match=None, component=None, trace_module=None):
+    def violation(self, prop, clause, idx, sc, r, family, driver, known_match=None, component=None, trace_module=None,
+                  slot=None):
         kf = None
         for k in self.known.get('known', []):
             if k['property'] != prop:
@@ -225,7 +226,7 @@ class Ctx:
             self.violations.append(None)
             return
         rep = {'property': prop, 'clause': clause, 'event_index': idx, 'family': family, 'driver': driver,
-               'component': component, 'trace_module': trace_module,
+               'component': component, 'trace_module': trace_module, 'verdict_slot': slot or prop,
                'scenario': replayable(sc, r), 'source_fingerprint': source_fingerprint(),
                'trace': r['events']}
         h = hashlib.sha1(json.dumps(rep['scenario'], sort_keys=True).encode()).hexdigest()[:12]
@@ -282,7 +283,7 @@ def generic_replay(mod, prop, path):
     comp = rep.get('component') or mod.COMP
     tm = rep.get('trace_module') or mod.TRACE
     verdicts, st = tlc.validate_batch(comp, tm, [r['events']])
-    hit = verdicts[0].get(prop)
+    hit = verdicts[0].get(rep.get('verdict_slot') or prop)
     same = r['events'] == rep.get('trace')
     print('replay: status=%s verdict=%s trace_identical=%s' % (r.get('status'), hit, same))
     if hit is not None:
